@@ -403,6 +403,15 @@ func (Spec) MakeInterest(name enc.Name, config *ndn.InterestConfig, appParam enc
 
 	needDigest := appParam != nil
 	estSigLen := 0
+	if !needDigest {
+		// Without ApplicationParameters the name must not carry a parameters digest: ReadInterest rejects such
+		// a packet. (A trailing one is dropped by the encoder.)
+		for i, c := range name {
+			if c.Typ == enc.TypeParametersSha256DigestComponent && i != len(name)-1 {
+				return nil, ndn.ErrInvalidValue{Item: "Interest.Name", Value: name}
+			}
+		}
+	}
 
 	// Fill-in SignatureInfo.
 	if signer != nil {
